@@ -49,6 +49,8 @@ Definition run_case (pn : N) (dom : string) (args : list arg) : list string :=
     match args with [AB bs] => run_cloneparsed p bs | _ => bad end
   else if dom =? "tageq" then
     match args with [AB b1; AB b2] => run_tageq p b1 b2 | _ => bad end
+  else if dom =? "bigelf" then
+    match args with [AN n; AN sh; AB e] => run_bigelf n sh e | _ => bad end
   else if dom =? "hbigwalk" then
     match args with [AN n; AB tag] => run_hbigwalk n tag | _ => bad end
   else if dom =? "bigwalk" then
